@@ -23,24 +23,30 @@ files `Restore()` writes back: first (nothing else restored) or last (everything
 The judge evaluates the Spec only for fault plans without a fault inside the restore
 (`Step.inRestore`): after such a request the rest of the case is outside the theorems' hypotheses.
 
-Logical paths: f/<name> q/<name> p/<name> (name = [a-z0-9]+.yaml), g, um, dm.
+Logical paths: f/<name> q/<name> p/<name> (name = up to three components [a-z0-9.]+, hidden names included), g, um, dm.
 Tokens: flows v<k> / w<k> (same flow, longer file) valid, quotas q<k> valid, path params anything, gateway g<k>|empty valid,
 metrics m<k> loadable; everything else is rejected by the dry run / the metrics loader.
 An item token `@` is a value that is not base64.
 -/
 open LunarVerif LunarVerif.Proto LunarVerif.C08
 
+/-- One path component: `[a-z0-9.]+` but neither `.` nor `..` (hidden names such as `.gitkeep`, `..data`,
+    `.hidden` are ordinary components). -/
 def okSeg (t : String) : Bool :=
-  !t.isEmpty && (t.toList.all fun c => c.isDigit || ('a' ≤ c && c ≤ 'z'))
+  !t.isEmpty && t != "." && t != ".." &&
+  (t.toList.all fun c => c.isDigit || ('a' ≤ c && c ≤ 'z') || c == '.')
 
-/-- `[dir/[dir/]]name.yaml`, every component `[a-z0-9]+` (payload names may carry up to two directory levels). -/
+/-- `[dir/[dir/]]name`: up to two directory levels; the name need not end in `.yaml` (the loaders ignore
+    such files, clean-up / backup / restore do not). -/
 def okName (n : String) : Bool :=
-  match (n.splitOn "/").reverse with
-  | last :: dirs =>
-    last.endsWith ".yaml" && okSeg (last.dropEnd 5).toString && dirs.length ≤ 2 && dirs.all okSeg
-  | [] => false
+  let parts := n.splitOn "/"
+  parts.length ≤ 3 && parts.all okSeg
 
 def nested (n : String) : Bool := (n.splitOn "/").length > 1
+
+/-- What the flows loader (`Glob(dir/*.yaml)`, dot names included) and the quota loader (`*.yaml` of the
+    directory itself) read: everything else in the directories is only stored, backed up and cleaned. -/
+def loaded (n : String) : Bool := !nested n && n.endsWith ".yaml"
 
 def parsePath (s : String) : Option Path :=
   if s == "g" then some .gateway
@@ -65,8 +71,8 @@ def tokIs (pre : Char) (t : String) : Bool :=
   | [] => false
 
 def fileValid : Path × Bytes → Bool
-  | (.flow n, t) => nested n || tokIs 'v' t || tokIs 'w' t   -- the flows loader globs `*.yaml` of the directory itself only
-  | (.quota n, t) => nested n || tokIs 'q' t  -- the quota loader skips sub-directories too
+  | (.flow n, t) => !loaded n || tokIs 'v' t || tokIs 'w' t   -- the flows loader globs `*.yaml` of the directory itself only
+  | (.quota n, t) => !loaded n || tokIs 'q' t  -- the quota loader skips sub-directories too
   | (.gateway, t) => tokIs 'g' t || t == "empty"
   | _ => true
 
@@ -80,7 +86,7 @@ def envMetricsOk (d : Disk) : Bool :=
     | none => false
 
 def envHasEndpoints (d : Disk) : Bool :=
-  d.any fun e => match e.1 with | .flow n => !nested n | .quota n => !nested n | _ => false
+  d.any fun e => match e.1 with | .flow n => loaded n | .quota n => loaded n | _ => false
 
 /-- Map order of `Restore()`: the faulted path first or last, the others in list order. -/
 def restoreOrderOf (fault : Option Step) (first : Bool) (L : List Path) : List Path :=
